@@ -80,3 +80,11 @@ Example ex_fields_no_instance :
   standalone (fun _ => PFErr) [] th 1700000000 ex_ip None ex_line =
     Delivered (CEvent [104; 105]%N [97; 10; 98]%N 1700000000 [] [] [[120]; [121]]%N ex_ip 1 0).
 Proof. eexists. split; [vm_compute; reflexivity|]. vm_compute. reflexivity. Qed.
+
+(* max-concurrent-events 0: the channel has no buffer and nobody receives - DispatchEvent blocks,
+   WaitForEvents can never return *)
+Example ex_cap0_stuck :
+  exists st, run (fstep (FCfg 1 0)) finit [Arrive 1 true] = Some st
+             /\ fstep (FCfg 1 0) st (Spawn 0) = None /\ fstep (FCfg 1 0) st WaitBackend = None
+             /\ gos st = [] /\ rels st = [] /\ parked st = [].
+Proof. eexists. split; [vm_compute; reflexivity|]. vm_compute. auto. Qed.
